@@ -1,6 +1,257 @@
-/- C06 — property theorems.  Stub. -/
-import CBV.Model.C06
+/-
+C06 — property theorems.  The written file (as a token stream) parses back to the dictionary it
+was rendered from; the dictionary that `Mesh.assemble` + `Mesh.write` produce for a declaration
+lists one hex per non-deleted operation in depot order, only existing vertex numbers, only quads
+that are `FACE_MAP` sides of its blocks, exactly the declared patch sides and projected sides,
+and the debug VTK reads back to the same points and cells.
+-/
+import CBV.Lemmas.C06Geo
+import CBV.Lemmas.C06Num
+import Mathlib.Data.String.Basic
+
+set_option linter.unusedSectionVars false
 
 namespace CBV.C06
+
+/-! ### the parser reads the renderer's output back -/
+
+/-- **T_C06_bracket.** Bracket layer: every sequence of trees is recovered from its tokens. -/
+theorem T_C06_bracket (ts : List Tree) : parseTrees (flatList ts) = some ts := parseTrees_flatList ts
+
+/-- **T_C06_bracket_faithful.** Conversely, a token stream that parses *is* the flattening of its
+    parse: token streams with balanced brackets and sequences of trees are in bijection, so
+    nothing of the file is lost or invented by the bracket layer. -/
+theorem T_C06_bracket_faithful (toks : List Tok) (ts : List Tree) (h : parseTrees toks = some ts) :
+    flatList ts = toks := parseTrees_faithful toks ts h
+
+example : parseTrees [.word "a", .lp, .word "b", .semi, .rp] = some [.atom "a", .paren [.atom "b", .semi]] := rfl
+
+/-- **T_C06_schema.** Schema layer: every well-formed dictionary is recovered from its trees. -/
+theorem T_C06_schema (d : Dict) (h : WF d) : decode (encode d) = some d := decode_encode d h
+
+/-- **T_C06_roundtrip.** `parse (render d) = some d` for every dictionary whose statements
+    (setting values, geometry properties, patch options) contain no `;` and whose setting names
+    are not `geometry` / `vertices`. -/
+theorem T_C06_roundtrip (d : Dict) (h : WF d) : parse (render d) = some d := parse_render d h
+
+/-- … in particular for the dictionary assembled from any declaration with such statements:
+    the file written for a model parses as a blockMeshDict, and to exactly that dictionary. -/
+theorem T_C06_roundtrip_assembled (decl : Decl) (h : WFDecl decl) :
+    parse (render (assembleDecl decl)) = some (assembleDecl decl) :=
+  parse_render _ (wf_dictOf decl h _ _)
+
+/-- the hypothesis is satisfiable by a declaration with settings, geometry and patch options -/
+def sampleDecl : Decl :=
+  { foamFile := [.atom "version", .atom "2.0", .semi], headComment := "// *", footer := ["// end"],
+    settings := [("scale", [.atom "1"])],
+    geomBefore := [⟨"terrain", [[.atom "type", .atom "searchablePlane"], [.atom "basePoint", .paren [.atom "0", .atom "0", .atom "0"]]]⟩],
+    geomAfter := [], mergedBefore := [("m", "s")], mergedAfter := [], default := some ("walls", "wall"),
+    modifyBefore := [⟨"inlet", "patch", some [[.atom "inGroups", .paren [.atom "a"]]]⟩], modifyAfter := [],
+    depot := [] }
+
+example : WFDecl sampleDecl := by
+  refine ⟨?_, ?_, ?_, ?_, ?_, ?_⟩ <;> simp [sampleDecl, NoSemi, isSectionKey, Tree.isSemi]
+
+/-! ### what the assembled dictionary contains -/
+
+/-- **T_C06_blocks.** One `hex` entry per non-deleted operation, in depot order; entry `k` lists the
+    vertex numbers the C05 model assigned to the eight corners of operation `k`, in the operation's
+    own corner order, with its cell zone, its (opaque) counts and grading, and the comment `// k`. -/
+theorem T_C06_blocks (decl : Decl) :
+    (assembleDecl decl).blocks.length = (declOps decl).length ∧
+    ∀ (k : Nat) (o : OpDecl), (declOps decl)[k]? = some o →
+      ∃ vs, (declVA decl).2[k]? = some vs ∧
+        (assembleDecl decl).blocks[k]? =
+          some ⟨vs.map (·.index), o.zone, o.counts, o.gkind, o.grading, "// " ++ toString k⟩ := by
+  obtain ⟨_, _, k3, _, _⟩ := assemble_winv closeCorner (C05.slavePatches decl.mergedBefore)
+    ((declOps decl).map OpDecl.toC05) (vl := {}) winv_empty
+  have hlen : (declVA decl).2.length = (declOps decl).length := by
+    unfold declVA; rw [k3, List.length_map]
+  constructor
+  · simp [assembleDecl, dictOf, blocksOf, hlen]
+  · intro k o ho
+    have hk : k < (declVA decl).2.length := by rw [hlen]; exact (List.getElem?_eq_some_iff.mp ho).1
+    refine ⟨(declVA decl).2[k], List.getElem?_eq_getElem hk, ?_⟩
+    show (blocksOf ((declOps decl).zip ((declVA decl).2.map (·.map (·.index)))))[k]? = _
+    rw [blocksOf_getElem?]
+    have hz : ((declOps decl).zip ((declVA decl).2.map (·.map (·.index))))[k]? =
+        some (o, (declVA decl).2[k].map (·.index)) := by
+      rw [List.getElem?_zip_eq_some]
+      exact ⟨ho, by rw [List.getElem?_map, List.getElem?_eq_getElem hk]; rfl⟩
+    rw [hz]
+    rfl
+
+/-- **T_C06_vertices.** The vertices section lists the vertices of the C05 model in order; entry
+    `i` carries the comment `// i`, the `%.8f` strings of the position and the projection labels of
+    the corner that created the vertex. -/
+theorem T_C06_vertices (decl : Decl) :
+    (assembleDecl decl).vertices.length = (declVA decl).1.vertices.length ∧
+    ∀ (i : Nat) (v : C05.Vertex Corner), (declVA decl).1.vertices[i]? = some v →
+      v.index = i ∧
+      (assembleDecl decl).vertices[i]? = some ⟨v.pos.coords, v.pos.proj, "// " ++ toString i⟩ := by
+  obtain ⟨k1, _⟩ := assemble_winv closeCorner (C05.slavePatches decl.mergedBefore)
+    ((declOps decl).map OpDecl.toC05) (vl := {}) winv_empty
+  constructor
+  · simp [assembleDecl, dictOf]
+  · intro i v hv
+    have hi : v.index = i := k1.dense i v hv
+    refine ⟨hi, ?_⟩
+    show ((declVA decl).1.vertices.map vertexEntry)[i]? = _
+    rw [List.getElem?_map, hv]
+    simp [vertexEntry, hi]
+
+/-- **T_C06_hex_corners.** (closeness an equivalence on the corners that occur, as in C05) corner `c`
+    of hex entry `k` is the number of a listed vertex that lies at corner `c` of operation `k`. -/
+theorem T_C06_hex_corners {S : Corner → Prop} (hc : C05.CloseEquivOn closeCorner S) (decl : Decl)
+    (hS : ∀ o ∈ declOps decl, ∀ p ∈ o.corners, S p)
+    (k c : Nat) (o : OpDecl) (p : Corner) (ho : (declOps decl)[k]? = some o) (hp : o.corners[c]? = some p) :
+    ∃ v, C05.vertexAt (declVA decl).2 k c = some v ∧ closeCorner p v.pos = true ∧
+      (declVA decl).1.vertices[v.index]? = some v := by
+  have hS' : ∀ op ∈ (declOps decl).map OpDecl.toC05, ∀ q ∈ op.pts, S q := by
+    intro op hop q hq
+    rw [List.mem_map] at hop
+    obtain ⟨o', ho', rfl⟩ := hop
+    exact hS o' ho' q hq
+  have ho' : ((declOps decl).map OpDecl.toC05)[k]? = some o.toC05 := by rw [List.getElem?_map, ho]; rfl
+  have hp' : o.toC05.pts[c]? = some p := hp
+  obtain ⟨v, hv⟩ := C05.vertexAt_total closeCorner hc (C05.slavePatches decl.mergedBefore) _ hS' k c _ p ho' hp'
+  have hpos := C05.vertexAt_position closeCorner hc (C05.slavePatches decl.mergedBefore) _ hS' k c _ p v ho' hp' hv
+  refine ⟨v, hv, hpos, ?_⟩
+  obtain ⟨hi, _⟩ := C05.assemble_spec closeCorner hc (C05.slavePatches decl.mergedBefore) _
+    (C05.inv_empty closeCorner S) hS'
+  obtain ⟨d, hd, hdv, _⟩ := C05.placed_of_vertexAt closeCorner hc (C05.slavePatches decl.mergedBefore) _ hS' ho' hp' hv
+  obtain ⟨j, hj⟩ := List.mem_iff_getElem?.mp hd
+  have hidx := hi.dense j d hj
+  have : (declVA decl).1.vertices[j]? = some d.vertex := by
+    show (C05.assemble closeCorner _ {} _).1.vertices[j]? = _
+    rw [← hi.reg, List.getElem?_map, hj]; rfl
+  rw [← hdv, hidx]
+  exact this
+
+/-- **T_C06_indices.** Every index in the written dictionary (hex corners, edge ends, projected quads,
+    patch quads) refers to an existing vertex, for every declaration whose operations have 8 corners. -/
+theorem T_C06_indices (decl : Decl) (h8 : ∀ o ∈ declOps decl, o.corners.length = 8) :
+    indicesOk (assembleDecl decl) = true :=
+  indicesOk_dictOf decl _ _ (declOb_bound decl h8)
+
+/-- **T_C06_quads.** Every boundary quad and every projected quad is `FACE_MAP[side]` (generated
+    table) of the vertex list of some hex entry — for every declaration. -/
+theorem T_C06_quads (decl : Decl) : quadsOk (assembleDecl decl) = true := quadsOk_dictOf decl _ _
+
+/-- the generated `FACE_MAP` lists, for every orient, the four corners of that side of the
+    blockMesh hexahedron (corner `c` has coordinates `(c%4 ∈ {1,2}, c%4 ∈ {2,3}, c ≥ 4)`) -/
+def bmOnSide (side : String) (c : Nat) : Bool :=
+  let x := c % 4 == 1 || c % 4 == 2
+  let y := c % 4 == 2 || c % 4 == 3
+  let z := decide (c ≥ 4)
+  if side = "bottom" then !z else if side = "top" then z else if side = "left" then !x
+  else if side = "right" then x else if side = "front" then !y else if side = "back" then y else false
+
+theorem T_C06_facemap :
+    orients = ["bottom", "top", "front", "right", "back", "left"] ∧
+    ∀ o ∈ orients, ∃ e ∈ CBV.Gen.faceMap, e.1 = o ∧ e.2.length = 4 ∧ e.2.Nodup ∧
+      ∀ c ∈ List.range 8, (decide (c ∈ e.2)) = bmOnSide o c := by decide
+
+/-- **T_C06_patches (nothing else).** Every quad listed under patch `n` is the side `orient` of a
+    block whose operation assigned `n` to that side; every patch name was declared by `set_patch`
+    or `modify_patch`. -/
+theorem T_C06_patches_sound (decl : Decl) :
+    (∀ p ∈ (assembleDecl decl).patches, ∀ q ∈ p.quads,
+      ∃ x ∈ declOb decl, ∃ orient, x.1.patchAt orient p.name ∧ q = quadOf x.2 orient) ∧
+    (∀ p ∈ (assembleDecl decl).patches,
+      (∃ m ∈ decl.modifyBefore ++ decl.modifyAfter, m.name = p.name) ∨
+      (∃ x ∈ declOb decl, ∃ orient, x.1.patchAt orient p.name)) := by
+  constructor
+  · exact patchesOf_pqn (fun n q => ∃ x ∈ declOb decl, ∃ orient, x.1.patchAt orient n ∧ q = quadOf x.2 orient)
+      decl _ (fun x hx orient name h => ⟨x, hx, orient, h, rfl⟩)
+  · exact patchesOf_names (fun n => (∃ m ∈ decl.modifyBefore ++ decl.modifyAfter, m.name = n) ∨
+        (∃ x ∈ declOb decl, ∃ orient, x.1.patchAt orient n)) decl _
+      (fun m hm => Or.inl ⟨m, List.mem_append_left _ hm, rfl⟩)
+      (fun m hm => Or.inl ⟨m, List.mem_append_right _ hm, rfl⟩)
+      (fun x hx orient name h => Or.inr ⟨x, hx, orient, h⟩)
+
+/-- **T_C06_patches (everything declared).** If an operation assigns patch `n` to a side, the
+    boundary has an entry `n` that lists a quad with exactly the vertices of that side (the code
+    drops a second quad with the same vertex set). -/
+theorem T_C06_patches_complete (decl : Decl) (x : OpDecl × List Nat) (hx : x ∈ declOb decl)
+    (orient name : String) (h : x.1.patchAt orient name) :
+    ∃ p ∈ (assembleDecl decl).patches, p.name = name ∧ ∃ q ∈ p.quads, sameSet q (quadOf x.2 orient) = true :=
+  patchesOf_has decl _ hx h
+
+/-- **T_C06_faces.** The `faces` section: every entry is a declared projection of a side (with its
+    label); every declared projection is listed up to vertex set. -/
+theorem T_C06_faces (decl : Decl) :
+    (∀ f ∈ (assembleDecl decl).faces, ∃ x ∈ declOb decl, ∃ orient, x.1.projAt orient f.label ∧ f.quad = quadOf x.2 orient) ∧
+    (∀ x ∈ declOb decl, ∀ orient label, x.1.projAt orient label →
+      ∃ f ∈ (assembleDecl decl).faces, sameSet f.quad (quadOf x.2 orient) = true) := by
+  constructor
+  · exact facesOf_fql (fun q l => ∃ x ∈ declOb decl, ∃ orient, x.1.projAt orient l ∧ q = quadOf x.2 orient) _
+      (fun x hx orient label h => ⟨x, hx, orient, h, rfl⟩)
+  · intro x hx orient label h
+    exact facesOf_has _ hx h
+
+/-- **T_C06_geometry.** If every label that a non-deleted operation is projected to (sides, faces,
+    edges, corners) is the name of a geometry declared by the user or brought by an entity of the
+    depot, then every label used by a `project` entry of the written dictionary is defined in its
+    geometry section.  (The premise is what the copied `Hemisphere` violated before the repair.) -/
+theorem T_C06_geometry (decl : Decl) (h : ∀ o ∈ declOps decl, ∀ l ∈ o.labels, l ∈ declGeomNames decl) :
+    geometryOk (assembleDecl decl) = true :=
+  geometryOk_dictOf decl _ (fun _ hx => (List.of_mem_zip hx).1) h
+
+/-- the geometry section contains exactly entries that were declared (name and properties) -/
+theorem T_C06_geometry_sound (decl : Decl) :
+    ∀ g ∈ (assembleDecl decl).geometry, g ∈ decl.geomBefore ++ decl.depot.flatMap (·.geometry) ++ decl.geomAfter :=
+  declGeometry_all (fun g => g ∈ decl.geomBefore ++ decl.depot.flatMap (·.geometry) ++ decl.geomAfter) decl
+    (fun g hg => List.mem_append_left _ (List.mem_append_left _ hg))
+    (fun g hg => List.mem_append_left _ (List.mem_append_right _ hg))
+    (fun g hg => List.mem_append_right _ hg)
+
+/-- an operation projected to a label that nothing defines (the copied sphere of the unrepaired
+    library: the operations keep the label of the original, the geometry is named after the copy) -/
+def orphanOp : OpDecl :=
+  { deleted := false,
+    corners := (List.range 8).map (fun i => ⟨⟨i, 0, 0⟩, [false, false, false], ["0", "0", "0"], []⟩),
+    patches := [none, none, none, none, none, none], sideProj := [none, some "sphere_old", none, none],
+    bottomProj := none, topProj := none, zone := "", counts := [], gkind := "simpleGrading", grading := [],
+    edges := [] }
+
+def orphanDecl : Decl :=
+  { sampleDecl with depot := [⟨[orphanOp], [⟨"sphere_new", []⟩]⟩] }
+
+example : geometryOk (assembleDecl orphanDecl) = false := by decide +kernel
+
+example : geometryOk (assembleDecl { orphanDecl with geomAfter := [⟨"sphere_old", []⟩] }) = true := by decide +kernel
+
+/-- **T_C06_merged.** `defaultPatch` and `mergePatchPairs` are exactly what was declared. -/
+theorem T_C06_merged (decl : Decl) :
+    (assembleDecl decl).default = decl.default ∧
+    (assembleDecl decl).merged = decl.mergedBefore ++ decl.mergedAfter ∧
+    (assembleDecl decl).settings = decl.settings := ⟨rfl, rfl, rfl⟩
+
+/-! ### printed coordinates -/
+
+/-- **T_C06_round8.** The integer whose digits `fmt8` prints is a nearest integer to `|q|·10⁸`: the
+    printed coordinate differs from the point by at most half a unit of the 8th decimal. -/
+theorem T_C06_round8 (q : Rat) :
+    ((round8 q : Nat) : Rat) - (if q < 0 then -q else q) * ((pow10 8 : Nat) : Rat) ≤ 1 / 2 ∧
+    (if q < 0 then -q else q) * ((pow10 8 : Nat) : Rat) - ((round8 q : Nat) : Rat) ≤ 1 / 2 :=
+  roundHalfEven_spec _ (mul_nonneg (by split <;> linarith) (by exact_mod_cast Nat.zero_le _))
+
+/-- ties go to the even neighbour: `1/512 = 0.001953125` prints as `0.00195312` -/
+example : round8 (1 / 512) = 195312 ∧ round8 (3 / 512) = 585938 ∧ round8 (-1 / 3) = 33333333 := by
+  decide +kernel
+
+/-! ### the debug VTK -/
+
+/-- **T_C06_vtk.** The VTK token stream reads back to the same points and the same hexahedra, for
+    all point lists (3 words each) and cell lists (8 indices each). -/
+theorem T_C06_vtk (hdr : List String) (pts : List (List String)) (cells : List (List Nat))
+    (hp : ∀ p ∈ pts, p.length = 3) (hc : ∀ c ∈ cells, c.length = 8) :
+    parseVtk hdr.length (renderVtk hdr pts cells) = some (pts, cells) :=
+  parseVtk_renderVtk hdr pts cells hp hc
+
+example : parseVtk 1 (renderVtk ["#"] [["0", "0", "0"], ["1", "0", "0"]] [[0, 1, 1, 0, 0, 1, 1, 0]]) =
+    some ([["0", "0", "0"], ["1", "0", "0"]], [[0, 1, 1, 0, 0, 1, 1, 0]]) :=
+  T_C06_vtk ["#"] [["0", "0", "0"], ["1", "0", "0"]] [[0, 1, 1, 0, 0, 1, 1, 0]] (by decide) (by decide)
 
 end CBV.C06
